@@ -33,7 +33,9 @@ func (w *World) enterCB(kind string, cs *connState) (task string) {
 	}
 	w.logf("cb %s conn=%d fd=%d task=%s", kind, connIdx(cs), connFd(cs), task)
 	if cs != nil && cs.c != nil {
-		w.checkAddrsAt(cs, kind)
+		if !cs.udp {
+			w.checkAddrsAt(cs, kind)
+		}
 		w.checkRegistry(cs, kind, task)
 	}
 	return
@@ -106,6 +108,15 @@ func (h *handler) OnOpen(c gnet.Conn) (out []byte, action gnet.Action) {
 	fd := c.Fd()
 	sk := w.k.SockOfFd(fd)
 	var cs *connState
+	if sk == nil && w.k.KindOf(fd) == "udp" {
+		// a connected UDP socket of a client: the dup of the application's descriptor
+		for _, ps := range w.peers {
+			if ps.cp.UDP && ps.connected && w.conns[ps.idx] == nil && w.k.SameFile(fd, ps.dialFd) {
+				cs = &connState{idx: ps.idx, cp: ps.cp, c: c, fd: fd, gen: w.k.FdGen(fd), udp: true}
+				break
+			}
+		}
+	}
 	if sk != nil {
 		for _, ps := range w.peers {
 			if ps.srv == sk {
@@ -134,6 +145,9 @@ func (h *handler) OnOpen(c gnet.Conn) (out []byte, action gnet.Action) {
 	w.countChanged()
 	if ra := c.RemoteAddr(); ra != nil {
 		cs.addrStr = ra.String()
+	}
+	if cs.udp {
+		return nil, gnet.None
 	}
 	w.lcAtOpen(cs)
 	for i := range cs.cp.OpenW {
@@ -181,6 +195,16 @@ func (h *handler) OnClose(c gnet.Conn, err error) (action gnet.Action) {
 	if cs.closed {
 		w.violate("C04", "close-twice", "conn %d: OnClose invoked twice (err=%v, first err=%v)", cs.idx, err, cs.closeErr)
 		return gnet.None
+	}
+	if cs.udp {
+		cs.closed, cs.closeErr = true, err
+		w.closedN++
+		w.countChanged()
+		w.logf("conn %d (udp client) OnClose err=%v", cs.idx, err != nil)
+		if err != nil && !w.k.FdFaulted(cs.fd) && !w.peers[cs.idx].udpEmpty {
+			w.violate("C04", "close-error-without-cause", "conn %d (udp client): OnClose reported %v but no I/O cause existed", cs.idx, err)
+		}
+		return gnet.Action(cs.cp.CloseAct)
 	}
 	// which causes existed before this callback?
 	if cs.sock.PeerSawFinOrErr() || cs.sock.PeerGone() || cs.sock.WriteErrs+cs.sock.ReadErrs > 0 || cs.failed != nil || w.faultTouched(cs) {
@@ -242,6 +266,13 @@ func (h *handler) OnTraffic(c gnet.Conn) (action gnet.Action) {
 	}
 	task := w.enterCB("OnTraffic", cs)
 	defer w.exitCB(task, cs)
+	if cs.udp {
+		if cs.closed {
+			w.violate("C04", "traffic-after-close", "conn %d (udp client): OnTraffic after OnClose", cs.idx)
+			return gnet.None
+		}
+		return w.udpClientTraffic(cs)
+	}
 	if !cs.opened {
 		w.violate("C04", "traffic-before-open", "conn %d: OnTraffic before OnOpen", cs.idx)
 	}
